@@ -14,7 +14,7 @@ RULE = 'C11: non-empty lists of 1-40 integers / dyadic / decimal numbers partiti
 ASSUMPTIONS = ['definitions evaluated in exact Fraction arithmetic on the doubles\' exact values; compared exactly when the result is an integer or dyadic rational that Python computes exactly, else within 1e-9 of the result plus 1e-12 of the magnitude of the data (squared for variances)',
                'MODE: any value of maximal multiplicity is accepted',
                'SUMIF/COUNTIF in the two-argument form the test-suite pins (the items are their own criteria cells); AVERAGEIF in both forms; *IFS with flat ranges',
-               'operator criteria are applied to numeric cells, wildcard/bare-text criteria to lower-case text cells (case rules are not stated)',
+               'operator criteria are applied to numeric cells, bare-text criteria to lower-case text cells (case rules are not stated), wildcard criteria to lower-case text cells and to ranges that mix them with numbers',
                'SLOPE in the flat form SLOPE(y1..yn, x1..xn) with xs not all equal']
 
 F = Fraction
@@ -400,6 +400,10 @@ def crit_and_range(draw, n):
         pivot = draw(st.one_of(st.sampled_from(cells), cell_num))
         crit = ['op', draw(st.sampled_from(sorted(OPS))), pivot] if kind == 'op' else (['num', pivot, 'other-class'] if draw(st.booleans()) else ['num', pivot])
         return crit, cells
+    if kind == 'wild' and draw(st.integers(0, 4)) == 0:
+        # a wildcard criterion over a range that holds numbers next to text: a number is no text, whatever its digits look like
+        cells = draw(st.lists(st.sampled_from([12, 1.5, 10, 11, 2, '12', '1x', '1', 'ab', 3, -1, '-1', 0.5, '1.5', 100]), min_size=n, max_size=n))
+        return ['wild', draw(st.sampled_from(['1*', '1?', '*', '?', '*2', '?.5', '1*5', '-?', '??', '*.*', '1??']))], cells
     cells = draw(st.lists(WORD, min_size=n, max_size=n))
     w = draw(st.sampled_from(cells))
     if kind == 'text':
@@ -439,7 +443,7 @@ def criteria_case(draw):
     values = draw(st.lists(st.one_of(st.integers(-50, 50), st.integers(-200, 200).map(lambda k: k / 4.0)), min_size=n, max_size=n))
     npairs = draw(st.integers(1, 3))
     pairs = [list(draw(crit_and_range(n))) for _ in range(npairs)]
-    if draw(st.integers(0, 4)) == 0 and pairs[0][0][0] in ('text', 'wild') and len(pairs) < 3:
+    if draw(st.integers(0, 4)) == 0 and pairs[0][0][0] in ('text', 'wild') and len(pairs) < 3 and all(isinstance(c, str) for c in pairs[0][1]):
         # a second criterion that differs from the first in blanks only, over cells that differ in blanks only
         c0, cells0 = pairs[0]
         txt = c0[1]
